@@ -63,6 +63,11 @@ Fixpoint where_from (i : nat) (l : list bool) : list nat :=
   end.
 Definition where_true (l : list bool) : list nat := where_from 0 l.
 
+(* every index of every row addresses a vertex (numpy raises IndexError otherwise) *)
+Definition idx_in_range {P} (A : list idx3 * list P) : bool :=
+  forallb (fun r => Nat.ltb (i0 r) (length (snd A)) && Nat.ltb (i1 r) (length (snd A)) && Nat.ltb (i2 r) (length (snd A)))
+          (fst A).
+
 Definition zrange (lo hi : Z) : list Z := map (fun i => (lo + Z.of_nat i)%Z) (seq 0 (Z.to_nat (hi - lo))).
 
 Section Model.
@@ -129,6 +134,8 @@ Section Model.
   Definition getv (vs : list pt) (i : nat) : pt := nth i vs (zero, zero).
   Definition row_tri (vs : list pt) (r : idx3) : tri := (getv vs (i0 r), getv vs (i1 r), getv vs (i2 r)).
   Definition a_triangles (A : atri) : list tri := map (row_tri (snd A)) (fst A).        (* vertices[indices] *)
+  Definition a_triangles_checked (A : atri) : res (list tri) :=
+    if idx_in_range A then Ok (a_triangles A) else Raise IndexError.
   Definition reindex (ts : list tri) : atri :=
     let u := unique_pts (flatten ts) in
     (map (fun t => (index_pt (v0 t) u, index_pt (v1 t) u, index_pt (v2 t) u)) ts, u).
@@ -393,11 +400,11 @@ Definition cs_cmp (Sg R : qcs) : bool :=
   zpts_eqb (c_coords Sg) (c_coords R) && qclose (c_side Sg) (c_side R) && qclose (c_xoff Sg) (c_xoff R)
   && qclose (c_yoff Sg) (c_yoff R) && Bool.eqb (c_flipped Sg) (c_flipped R).
 Definition qtris (A : qatri) : list qtri := @a_triangles QOps A.
-Definition idx_ok (A : qatri) : bool :=
-  forallb (fun r => Nat.ltb (i0 r) (length (snd A)) && Nat.ltb (i1 r) (length (snd A)) && Nat.ltb (i2 r) (length (snd A))) (fst A).
+Definition idx_ok (A : qatri) : bool := idx_in_range A.
 
 Inductive case :=
 | KATris (A : qatri) (out : list qtri)                        (* ArrayTriangles(...).triangles *)
+| KATrisRes (A : qatri) (out : res (list qtri))               (* possibly out-of-range index rows *)
 | KAArea (A : qatri) (out : Q)
 | KAUp (ex : bool) (A out : qatri)
 | KANbr (ex : bool) (A out : qatri)
@@ -419,6 +426,7 @@ Inductive case :=
 Definition agree (k : case) : bool :=
   match k with
   | KATris A out => list_eqb (tri_cmp true) (qtris A) out
+  | KATrisRes A out => res_eqb (list_eqb (tri_cmp true)) (@a_triangles_checked QOps A) out
   | KAArea A out => Qeq_bool (@a_area QOps A) out
   | KAUp ex A out =>
       if ex then atri_eqb (@a_up_sample QOps A) out
@@ -509,6 +517,12 @@ Definition spec_ok (k : case) : bool :=
   | KATris A out => negb (idx_ok A) ||
       list_eqb (tri_cmp true)
         (map (fun r => (nth (i0 r) (snd A) (0, 0), nth (i1 r) (snd A) (0, 0), nth (i2 r) (snd A) (0, 0))) (fst A)) out
+  | KATrisRes A out =>
+      match out with
+      | Ok ts => idx_ok A &&& list_eqb (tri_cmp true)
+                   (map (fun r => (nth (i0 r) (snd A) (0, 0), nth (i1 r) (snd A) (0, 0), nth (i2 r) (snd A) (0, 0))) (fst A)) ts
+      | Raise _ => negb (idx_ok A)
+      end
   | KAArea A out => Qeq_bool (spec_area (qtris A)) out
   | KAUp ex A out => negb (idx_ok A) || (idx_ok out && spec_up ex (qtris A) (qtris out))
   | KANbr ex A out => negb (idx_ok A) || (idx_ok out && spec_nbr ex (qtris A) (qtris out))
